@@ -113,7 +113,8 @@ pub mod verif {
 // ---------------------------------------------------------------------------
 
 struct Slots {
-    used: shuttle::sync::Mutex<usize>,
+    /// (slots in use by tasks other than the owner, owner is waiting inside a pool operation)
+    used: shuttle::sync::Mutex<(usize, bool)>,
     cv: shuttle::sync::Condvar,
 }
 
@@ -121,25 +122,54 @@ struct PoolInner {
     id: usize,
     cap: Option<usize>,
     slots: Option<Slots>,
+    /// `use_current_thread`: the task that built the pool is one of its `cap` threads, but it only runs pool
+    /// work while it is inside `install` (in place) or waiting in a join there (when it would steal)
+    owner: Option<usize>,
+}
+
+fn current_task_id() -> Option<usize> {
+    if verif::controlled() {
+        shuttle::current::get_current_task().map(usize::from)
+    } else {
+        None
+    }
 }
 
 impl PoolInner {
+    fn is_owner(&self) -> bool {
+        self.owner.is_some() && self.owner == current_task_id()
+    }
+
     fn acquire(&self) {
         if let (Some(cap), Some(s)) = (self.cap, self.slots.as_ref()) {
             let mut g = s.used.lock().unwrap();
-            while *g >= cap {
+            if self.is_owner() {
+                // the owner resumes its own thread: it stops lending it
+                g.1 = false;
+                return;
+            }
+            loop {
+                let limit = if self.owner.is_some() { cap - 1 + g.1 as usize } else { cap };
+                if g.0 < limit {
+                    break;
+                }
                 g = s.cv.wait(g).unwrap();
             }
-            *g += 1;
+            g.0 += 1;
         }
     }
 
     fn release(&self) {
         if let Some(s) = self.slots.as_ref() {
             let mut g = s.used.lock().unwrap();
-            *g -= 1;
+            if self.is_owner() {
+                // the owner blocks inside a pool operation: its thread would steal, i.e. one more task may run
+                g.1 = true;
+            } else {
+                g.0 -= 1;
+            }
             drop(g);
-            s.cv.notify_one();
+            s.cv.notify_all();
         }
     }
 }
@@ -350,6 +380,16 @@ impl ThreadPool {
         if self.same_pool(&caller) {
             return op();
         }
+        if self.inner.is_owner() {
+            // the building thread is worker 0 of this pool: the closure runs in place
+            set_ctx(Some(Ctx::Pool(self.inner.clone(), 0)));
+            let r = catch_unwind(AssertUnwindSafe(op));
+            set_ctx(caller);
+            match r {
+                Ok(v) => return v,
+                Err(p) => std::panic::resume_unwind(p),
+            }
+        }
         let ctx = Ctx::Pool(self.inner.clone(), 0);
         if let Some(c) = &caller {
             c.release();
@@ -454,6 +494,7 @@ impl std::error::Error for ThreadPoolBuildError {}
 #[derive(Default)]
 pub struct ThreadPoolBuilder {
     threads: usize,
+    current_thread: bool,
 }
 
 impl ThreadPoolBuilder {
@@ -477,7 +518,17 @@ impl ThreadPoolBuilder {
         self
     }
 
+    /// The building thread becomes one of the pool's threads (rayon >= 1.8).
+    pub fn use_current_thread(mut self) -> Self {
+        self.current_thread = true;
+        self
+    }
+
     pub fn build(self) -> Result<ThreadPool, ThreadPoolBuildError> {
+        if self.current_thread && cur_ctx_opt().is_some() {
+            // the thread already belongs to a pool
+            return Err(ThreadPoolBuildError);
+        }
         let cap = if self.threads == 0 {
             verif::DEFAULT_THREADS.with(|c| c.get())
         } else {
@@ -491,14 +542,14 @@ impl ThreadPoolBuilder {
         verif::POOLS_BUILT.with(|c| c.set(c.get() + 1));
         let slots = if verif::controlled() && cap.is_some() {
             Some(Slots {
-                used: shuttle::sync::Mutex::new(0),
+                used: shuttle::sync::Mutex::new((0, false)),
                 cv: shuttle::sync::Condvar::new(),
             })
         } else {
             None
         };
         Ok(ThreadPool {
-            inner: Arc::new(PoolInner { id, cap, slots }),
+            inner: Arc::new(PoolInner { id, cap, slots, owner: if self.current_thread { current_task_id() } else { None } }),
         })
     }
 
